@@ -66,6 +66,8 @@ fn prelude() -> Vec<E> {
         ),
         let_("ea", E::Array(bx(E::Int(0)), bx(E::Int(0)))),
         E::Fun("ft".into(), vec![], bx(call("tr", vec![E::Int(600), E::Int(6)]))),
+        // changes the global x from inside a call made by an initializer
+        E::Fun("bumpx".into(), vec!["k".into(), "d".into()], bx(E::Block(vec![print("<~>", vec![var("k")]), assign("x", bin("+", var("x"), var("d")))]))),
     ]
 }
 
@@ -220,7 +222,28 @@ impl<'c> Shapes<'c> {
                     E::If(bx(o.remove(0)), bx(o.remove(0)), Some(bx(o.remove(0))))
                 }
             },
-            Ty::Arr => match self.c.pick(if d > 0 { 5 } else { 4 }) {
+            Ty::Arr => match self.c.pick(if d > 0 { 6 } else { 5 }) {
+                // NOTE: 5 (or 4 at depth 0) = the size is a plain VARIABLE (global, local of a function,
+                // field) and the initializer assigns it: the size is still evaluated once and first
+                n5 if n5 == (if d > 0 { 5 } else { 4 }) => {
+                    let k1 = self.next_k();
+                    let start = 1 + self.c.pick(3) as i32;
+                    let delta = [1, -1, 2][self.c.pick(3)];
+                    match self.c.pick(3) {
+                        0 => E::Block(vec![
+                            assign("x", E::Int(start)),
+                            E::Array(bx(var("x")), bx(call("tr", vec![E::Int(k1), assign("x", bin("+", var("x"), E::Int(delta)))]))),
+                        ]),
+                        1 => E::Block(vec![
+                            let_("sz", E::Int(start)),
+                            E::Array(bx(var("sz")), bx(E::Block(vec![print(&format!("<{}>", k1), vec![]), assign("sz", bin("+", var("sz"), E::Int(delta)))]))),
+                        ]),
+                        _ => E::Block(vec![
+                            assign("x", E::Int(start)),
+                            E::Array(bx(var("x")), bx(call("bumpx", vec![E::Int(k1), E::Int(delta)]))),
+                        ]),
+                    }
+                }
                 // NOTE: alternative numbering: 0..2 traced sizes, 3 plain effectful forms, 4 nested shape
                 3 => {
                     let k1 = self.next_k();
@@ -348,7 +371,7 @@ impl Property for C13 {
         "cases: (enumerated) every expression shape of depth 1 and every depth-2 shape with one nested operand position, over {binary operator, calls with 0-3 arguments, method call, operator on an object, object with parent and 0-3 fields, array(size, simple), array(size, compound) and array(size, counting initializer) with size 0-3, index read, index write, field write, let, assignment, if with/without else, counted while (condition traced), print with 0-3 arguments, block}, every operand position holding a self-identifying side effect (tr(k, v) or begin print(\"<k>\"); v end), including positions whose value is discarded; (random) the same shapes to depth 4 with several nested positions. oracle: the reference semantics' output = the marker sequence (order and multiplicity) and the printed result. non-trivial: >=3 traced operand evaluations; distinct by source".into()
     }
     fn random_cases(&self, tier: Tier) -> u64 {
-        tier.pick(40_000, 1_500_000)
+        tier.pick(250_000, 4_000_000)
     }
     fn max_tape(&self) -> usize {
         300
